@@ -275,15 +275,21 @@ def run_hub(case):
                 self.out.put(pkt)
     ports = [PortDev(f"pd{i}") if p is not None else None for i, p in enumerate(ports)]
     if case["ctor"]:
+        # the first k stations are given to the constructor, the others are attached afterwards
+        k = min(n, case.get("split", n))
         if use_ports:
-            hub = guarded("C18.no_exception", lambda: Hub(env, list(eps), list(ports)), f"Hub(env, {n} endpoints, ports)")
+            hub = guarded("C18.no_exception", lambda: Hub(env, list(eps[:k]), list(ports[:k])), f"Hub(env, {k} endpoints, ports)")
         else:
-            hub = guarded("C18.no_exception", lambda: Hub(env, list(eps)), f"Hub(env, {n} endpoints) without ports")
+            hub = guarded("C18.no_exception", lambda: Hub(env, list(eps[:k])), f"Hub(env, {k} endpoints) without ports")
+        for e, p in zip(eps[k:], ports[k:]):
+            guarded("C18.no_exception", lambda: hub.add_endpoint(e, p), "add_endpoint after the constructor")
     else:
         hub = guarded("C18.no_exception", lambda: Hub(env), "Hub(env)")
         for e, p in zip(eps, ports):
             guarded("C18.no_exception", lambda: hub.add_endpoint(e, p), "add_endpoint")
     classes = {"constructor" if case["ctor"] else "add_endpoint", "with port devices" if use_ports else "without port devices"}
+    if case["ctor"] and 0 < min(n, case.get("split", n)) < n:
+        classes.add("constructor, then add_endpoint")
     for i, s in enumerate(case["senders"]):
         src = f"ep{s}" if s < n else "outsider"
         pkt = mkpkt(i, 0, src=src)
@@ -637,7 +643,8 @@ def hub_strategy(tier):
         "n": st.just(n), "ports": st.booleans(), "ctor": st.booleans(),
         "port_mask": st.lists(st.booleans(), min_size=n, max_size=n),
         "senders": st.lists(st.integers(0, n), min_size=1, max_size=4),
-        "responder": st.one_of(st.none(), st.integers(0, max(0, n - 1)))}))
+        "responder": st.one_of(st.none(), st.integers(0, max(0, n - 1))),
+        "split": st.sampled_from([n, n, max(0, n - 1), 1, n // 2])}))
 
 
 def splitter_strategy(tier):
@@ -697,7 +704,8 @@ PROP = Property(
                          "table entry changed after the flow was routed", "table replaced through the setter"]),
         Facet("switch", switch_strategy, run_switch, quick=400, thorough=2000, essential=["routed", "nowhere", "empty table"]),
         Facet("hub", hub_strategy, run_hub, quick=400, thorough=2000,
-              essential=["constructor", "add_endpoint", "with port devices", "without port devices", "sender inside", "sender outside"]),
+              essential=["constructor", "add_endpoint", "with port devices", "without port devices", "sender inside", "sender outside",
+                         "constructor, then add_endpoint"]),
         Facet("splitter", splitter_strategy, run_splitter, quick=300, thorough=1500,
               essential=["Splitter", "NSplitter", "unset output", "invalid N refused", "packet marked upstream of the splitter"]),
         Facet("fattree", fattree_strategy, run_fattree, quick=400, thorough=1500,
